@@ -72,15 +72,20 @@ def run(ctx) -> None:
         add(v, 0, "block", "truncated@big", v["file"][:len(v["file"]) - 4])
     res = Pool().map("include_ips_case", tasks, timeout=120)
     recs = []
+    kept = []
     for k, (m, o) in enumerate(zip(meta, res)):
-        if o.get("hang") or o.get("driver_error") or o.get("crash"):
+        if o.get("hang"):
+            ctx.violation(f"hang/{m['malformed'] or 'wellformed'}", "including the patch did not terminate", {"case": {**m, "file": tasks[k]["file"][:200]}})
+            continue
+        if o.get("driver_error") or o.get("crash"):
             raise tlc.TLCFailure(f"driver failed on {m['delta']}/{m['placement']}: {o}")
         if m["placement"] == "macro2":
             # two applications: the records at delta and again at delta + 0x40000
             m = dict(m, recs=m["recs"] + [dict(r_, off=r_["off"] + 0x40000) for r_ in m["recs"]])
-        recs.append({"id": str(k), "recs": m["recs"], "delta": m["delta"], "malformed": bool(m["malformed"]),
+        recs.append({"id": str(len(kept)), "recs": m["recs"], "delta": m["delta"], "malformed": bool(m["malformed"]),
                      "base": {k2: o["base"][k2] for k2 in ("ok", "calls", "labels")},
                      "with": {k2: o["with"][k2] for k2 in ("ok", "calls", "labels")}})
+        kept.append(k)
         ctx.evaluations += 1
         ctx.nontrivial.add((str([(rc["off"], len(rc["data"]), rc["rle"]) for rc in m["recs"]]), m["delta"], m["placement"], m["malformed"]))
     ctx.sample({"records": meta[0]["recs"], "delta": meta[0]["delta"], "placement": meta[0]["placement"],
@@ -89,6 +94,7 @@ def run(ctx) -> None:
     ctx.add_states(st, gen, "TraceC13 judging writer calls")
     ctx.traces += len(recs)
     for rj in rejects:
+        rj = dict(rj, id=str(kept[int(rj["id"])]))
         m = meta[int(rj["id"])]
         o = res[int(rj["id"])]
         mk = m["malformed"].split("@")[0] if m["malformed"] else "wellformed"
